@@ -644,7 +644,12 @@ def compare_multiway(block_intersection, dataset_names, phases):
             continue
         total_compared += len(block) - 1
         phasings = ["".join(str(phases[j][i].phase[0]) for i in block) for j in range(len(phases))]
-        switch_encodings = [switch_encoding(p) for p in phasings]
+        # Encode the phase between consecutive variants relative to the first data set. This gives
+        # the same bipartitions as comparing the switch encodings of the individual phasings, but is
+        # also valid for multi-allelic variants.
+        switch_encodings = [
+            switch_encoding(relative_orientation(p, phasings[0])) for p in phasings
+        ]
         for i in range(len(block) - 1):
             s = "".join(switch_encodings[j][i] for j in range(len(switch_encodings)))
             s = min(s, complement(s))
